@@ -218,6 +218,9 @@ def solver_trace(ctx, focus, instances, follow=False):
             f.write(open(ctx.path("follow.trace")).read())
     viols, done = trace_validate(ctx, "Trace_Solver", ctx.path("ik.trace"), xmx="12g")
     ev = read_ndjson(ctx.path("ik.trace"))
+    # (conformance, not the property: the repeated first call of a family answered differently)
+    ctx.extra["families_of_related_robots"] = sum(1 for e in ev if e.get("member") == "again")
+    ctx.extra["repeated_identical_calls_answered_differently"] = done.get("repeats_differ", 0)
     return ev, viols
 
 
